@@ -1,26 +1,24 @@
 #!/usr/bin/env python3
-"""writes /verif/MANIFEST.json from the table below (kept here so that the file stays valid and consistent)"""
-import json, os
+"""writes /verif/MANIFEST.json: one check per props/cXX.py plugin that defines MANIFEST = dict(cat=, tech=, text=, note=, ref=)
+(and is not marked MANIFEST['claimed'] = False); every other property goes to not_applicable with the reason from NOT_CLAIMED."""
+import importlib, json, os, sys
 ROOT = os.path.dirname(os.path.dirname(os.path.abspath(__file__)))
-CHECKS = {
- "C10": dict(cat="proof", tech="Coq proof of algorithm models (wrap-around arithmetic) + exhaustive differential correspondence with the C++",
-   text="Coq theorems (unbounded in the operands, all moduli below 2^32 resp. the documented bounds) that the transcribed helpers "
-        "_add/_subtract/_multiply/get_value/fused ops/times_minus/plus_times_equal compute exact residues, that the inverse table holds "
-        "inverses and is complete for primes; the transcription is tied to the C++ by running both on identical operation lines, "
-        "exhaustively for small primes and small prime ranges and boundary-directed beyond, over all 13 classes; the partial-inverse "
-        "specification is a decidable predicate evaluated on every answer.",
-   note="Trusted: Coq kernel, extraction+OCaml driver, the hand transcription (validated by the differential run), g++/GMP. "
-        "Not proved in Coq (kept as *_full definitions, evaluated per input): refusal of composites, extended-Euclid inverse, CRT partial inverse.",
-   ref="DESIGN.md section 4 C10"),
-}
-NOT_YET = {}
+sys.path.insert(0, ROOT)
+NOT_CLAIMED = {}
+DEFAULT_REASON = "check not built yet in this revision (work in progress, see DESIGN.md section 8); not claimed"
 props = [json.loads(l) for l in open(os.path.join(ROOT, "properties.jsonl"))]
 checks = []
 na = []
 for p in props:
     pid = p["id"]
-    if pid in CHECKS:
-        c = CHECKS[pid]
+    c = None
+    if os.path.exists(os.path.join(ROOT, "props", pid.lower() + ".py")):
+        mod = importlib.import_module("props." + pid.lower())
+        c = getattr(mod, "MANIFEST", None)
+        if c is not None and c.get("claimed", True) is False:
+            NOT_CLAIMED[pid] = c.get("reason", DEFAULT_REASON)
+            c = None
+    if c:
         checks.append({
             "property_id": pid,
             "quick_cmd": "./check %s --tier quick" % pid,
@@ -33,13 +31,13 @@ for p in props:
             "technique": c["tech"],
         })
     else:
-        na.append({"property_id": pid, "reason": NOT_YET.get(pid, "check not built yet in this revision (work in progress, see DESIGN.md section 8); not claimed")})
+        na.append({"property_id": pid, "reason": NOT_CLAIMED.get(pid, DEFAULT_REASON)})
 m = {
     "version": 1,
     "setup_cmd": "./setup.sh",
     "hooks": {"guard": "GUDHI_VERIF_HOOKS", "enable": "harnesses are compiled with -DGUDHI_VERIF_HOOKS; no hook is currently needed (all observations go through public members)",
               "baseline_off_cmd": "ctest --test-dir /repo/_build -j8 --timeout 900", "source_commits": [], "add_only": True},
-    "engines": [{"name": "coq+correspondence", "path": "/verif/check", "serves_properties": sorted(CHECKS),
+    "engines": [{"name": "coq+correspondence", "path": "/verif/check", "serves_properties": sorted(c["property_id"] for c in checks),
                  "kind_free_text": "Coq 8.16.1 development under /verif/coq (models, proofs, Properties_<id>.v), extraction to OCaml oracles, "
                                    "C++ harnesses compiled against /repo's working tree, differential comparison"}],
     "checks": checks,
